@@ -2,7 +2,7 @@
 O1 no dropped owner / O2 shared values => containers freed without values / O3 put value typestate (ESP; also L5 of C01) /
 O4 removed value retired exactly once (ESP) / O5 teardown covers every variant."""
 from .analysis import flow, regions, cond_of, reach, after, Point, return_points, back_edges, dominated_by_edge
-from .anchors import anchors, callee_str, is_std_atomic, is_reclaim_atomic, receiver_field, is_shared_write, is_link_load
+from .anchors import anchors, callee_str, is_std_atomic, is_reclaim_atomic, receiver_field, is_shared_write, is_link_load, is_fresh_alloc
 from .callgraph import callgraph
 from .esp import Esp, Spec
 from .facts import op_root, op_local, op_int, strip_generics, place_fields
@@ -93,7 +93,7 @@ def rule_o1(ctx, facts):
                 ctx.inst("O1", b, "swap result (%s)" % f, c.span, not leaks,
                          "consumed on every path: %s" % ", ".join(sorted(set(cons.values()) | ({"asserted null"} if nulls else set())))[:160] if not leaks else
                          "the previous %s returned by the swap at %s is dropped on a path to the return: the object it points to is leaked" % (f, c.span))
-            elif s.endswith("reclaim::Shared::boxed"):
+            elif is_fresh_alloc(b, c):
                 x = c.dst_local()
                 locs = fl.flows_to(x)
                 cons = consumers(b, facts, locs)
@@ -667,7 +667,7 @@ def rule_o7(ctx, facts):
                 rc = [b.call_at(r[1]) for r in roots if r[0] == "call"]
                 if rc and all(callee_str(x).endswith("Shared::null") for x in rc if x is not None):
                     nulls.append(pt)
-                elif any(x is not None and callee_str(x).endswith("Shared::boxed") for x in rc):
+                elif any(x is not None and is_fresh_alloc(b, x) for x in rc):
                     fresh.append(pt)
             if not fresh:
                 continue
